@@ -289,3 +289,77 @@ def _ser(x):
     if hasattr(x, "serialize"):
         return x.serialize()
     return json.dumps(x, default=lambda o: utils.format_datetime(o))
+
+
+# ---------------------------------------------------------------- marking operations are versioning operations too
+MK1 = "marking-definition--613f2e26-407d-48c7-9eca-b8e91df99dc9"
+MK2 = "marking-definition--34098fce-860f-48ae-8e50-ebd3cc5e41da"
+MK3 = "marking-definition--f88d31f6-486f-44da-b317-01333bde0b82"
+MOPS = [
+    ("add object marking", lambda o: stix2.markings.add_markings(o, MK2)),
+    ("add two object markings", lambda o: stix2.markings.add_markings(o, [MK2, MK3])),
+    ("remove object marking", lambda o: stix2.markings.remove_markings(o, MK1)),
+    ("set object markings", lambda o: stix2.markings.set_markings(o, [MK3])),
+    ("clear object markings", lambda o: stix2.markings.clear_markings(o)),
+    ("add granular marking", lambda o: stix2.markings.add_markings(o, MK2, ["name"])),
+    ("add granular marking on the marked selector", lambda o: stix2.markings.add_markings(o, MK2, ["description"])),
+    ("remove granular marking", lambda o: stix2.markings.remove_markings(o, MK1, ["description"])),
+    ("set granular marking", lambda o: stix2.markings.set_markings(o, MK3, ["description"])),
+    ("clear granular marking", lambda o: stix2.markings.clear_markings(o, ["description"])),
+    ("clear one of two selectors", lambda o: stix2.markings.clear_markings(o, ["labels"])),
+]
+NMOP = len(MOPS)
+
+
+def marking_ops(mi: int, oi: int, ki: int, form: int, v21: bool, revoked: bool) -> bool:
+    """
+    pre: 0 <= mi < NMOP and 0 <= oi < 8 and 0 <= ki < 4 and 0 <= form <= 1
+    post: _
+    """
+    mi, oi, ki, form, v21, revoked = pick(mi, NMOP), pick(oi, 8), pick(ki, 4), pick(form, 2), pickb(v21), pickb(revoked)
+    with Native():
+        ok = run_marking_case(mi, oi, ki, form, v21, revoked)
+    V.reached()
+    return ok
+
+
+def run_marking_case(mi, oi, ki, form, v21, revoked):
+    """each marking operation yields a new version: strictly later modified (also as serialized) whatever the clock reads, same identity and
+    non-marking content, the original -- including its marking lists -- untouched; on a revoked object it is refused and changes nothing"""
+    cls = stix2.v21.Malware if v21 else stix2.v20.Malware
+    kw = dict(id=ID, name="x", description="d", labels=["l"], created=BASE - dt.timedelta(days=1), modified=BASE + dt.timedelta(microseconds=OLD_US[ki]),
+              object_marking_refs=[MK1], granular_markings=[{"marking_ref": MK1, "selectors": ["description"]}, {"marking_ref": MK2, "selectors": ["labels", "created"]}])
+    if v21:
+        kw["is_family"] = False
+    if revoked:
+        kw["revoked"] = True
+    obj = cls(**kw)
+    data = obj if form == 0 else json.loads(obj.serialize())
+    before = _ser(data) if form == 0 else json.dumps(data, sort_keys=True)
+    old_text = json.loads(obj.serialize())["modified"]
+    cur_mod = utils.parse_into_datetime(old_text)
+    saved = versioning.get_timestamp
+    versioning.get_timestamp = lambda: utils.STIXdatetime(cur_mod + dt.timedelta(microseconds=OFFSETS[oi]))
+    try:
+        try:
+            new = MOPS[mi][1](data)
+            refused = False
+        except RevokeError:
+            refused = True
+    finally:
+        versioning.get_timestamp = saved
+    after = _ser(data) if form == 0 else json.dumps(data, sort_keys=True)
+    if before != after:
+        return False
+    if revoked or refused:
+        return revoked and refused
+    j0, j1 = json.loads(obj.serialize()), json.loads(_ser(new))
+    if not utils.parse_into_datetime(j1["modified"]) > utils.parse_into_datetime(j0["modified"]):
+        return False
+    skip = ("modified", "object_marking_refs", "granular_markings")
+    if {k: v for k, v in j0.items() if k not in skip} != {k: v for k, v in j1.items() if k not in skip}:
+        return False
+    if (form == 0) != hasattr(new, "serialize"):
+        return False
+    stix2.parse(j1, allow_custom=False, version="2.1" if v21 else "2.0")
+    return True
